@@ -132,6 +132,24 @@ func plan(seed int64, n int) []scen {
 			}
 		}
 	}
+	// the "late answer" family (cancel during a round trip, the broker answers or closes the
+	// connection LATE) is guaranteed in every run with N >= 20: the last ordinary mode p / g
+	// e2e entries are converted (the others keep id, sub-seed and kind).  In priority order,
+	// as far as entries are left: 3 t late-answer, 2 t late-close, one of each w kind, one
+	// late-reply-reader in mode g and one in mode p.
+	if n >= 20 {
+		type fam struct{ mode, kind string }
+		want := []fam{{"t", "late-answer"}, {"t", "late-close"}, {"w", "w-late-produce"}, {"w", "w-late-close"}, {"w", "w-late-metadata"},
+			{"t", "late-answer"}, {"g", "late-reply-reader"}, {"t", "late-answer"}, {"t", "late-close"}, {"p", "late-reply-reader"}}
+		for i := len(l) - 1; i >= front && len(want) > 0; i-- {
+			if l[i].op != "e2e" || (l[i].mode != "p" && l[i].mode != "g") {
+				continue
+			}
+			l[i].mode = want[0].mode
+			l[i].kind, l[i].variant = want[0].kind, ""
+			want = want[1:]
+		}
+	}
 	return l
 }
 
@@ -163,6 +181,8 @@ func runScenario(sc scen) result {
 		return runNlv(sc)
 	}
 	switch {
+	case sc.mode == "w":
+		return runW(sc)
 	case sc.mode == "t":
 		return runT(sc)
 	case sc.variant == "ff":
